@@ -896,4 +896,90 @@ theorem RelF.enter {m : Nat → Nat} {s₁ : St} {rs₁ : Ref.St} {env vid : Nat
     · subst heq; rw [hso_new] at hv; exact ValIn.mono (hLok x v hx hv) hgood
     · rw [hso_big i hgt] at hv; cases hv
 
+/-! ## `CallExprInstr` with a symbol callee, `CallResolved` -/
+
+theorem exec_callExpr_sym (F : Nat) (h : String) (args : List Expr) (s : St) (i : Nat) (fv : Val)
+    (hl : lexLookup s h = some (i, fv)) :
+    (exec (F + 3) (.callExpr (.sym h) args)).run s = (callResolved (F + 2) fv args).run s := by
+  rw [exec]
+  have he : (evalCallExpr (F + 2) (.sym h)).run s = (.ok fv, s) := by
+    rw [evalCallExpr]
+    simp only [run_bind, run_get, hl, run_pure]
+  simp only [run_bind, he]
+
+theorem exec_callExpr_sym_none (F : Nat) (h : String) (args : List Expr) (s : St) (hl : lexLookup s h = none) :
+    (exec (F + 2) (.callExpr (.sym h) args)).run s = (.error .err, s) := by
+  rw [exec]
+  have he : (evalCallExpr (F + 1) (.sym h)).run s = (.error .err, s) := by
+    rw [evalCallExpr]
+    simp only [run_bind, run_get, hl, run_err]
+  simp only [run_bind, he]
+
+/-- what the `guarded` wrapper of `CallResolved` makes of the outcome of its body -/
+def guardedRun (start : Nat) (r : Except Fault Unit × St) : Except Fault Unit × St :=
+  match r with
+  | (.ok _, s') => (.ok (), s')
+  | (.error .err, s') => (.error .err, { s' with data := truncate s'.data start })
+  | (.error flt, s') => (.error flt, s')
+
+theorem run_callResolved_fn (F vid : Nat) (args : List Expr) (s : St) :
+    (callResolved (F + 1) (.fn vid) args).run s =
+      guardedRun s.data.length
+        ((prepareArgs F (some (fnOf s vid)) 0 args >>= fun _ => callFunction vid args.length : M Unit).run s) := by
+  rw [callResolved]
+  unfold guardedRun
+  rcases hp : (prepareArgs F (some (fnOf s vid)) 0 args).run s with ⟨rp, s1⟩
+  cases rp with
+  | error flt =>
+    cases flt <;> simp only [run_bind, hp, run_get, run_set, run_throw, run_modify, run_pure]
+  | ok u =>
+    rcases hcu : (callFunction vid args.length).run s1 with ⟨rc, s2⟩
+    cases rc with
+    | ok u2 => simp only [run_bind, hp, hcu, run_get, run_set, run_throw, run_modify, run_pure]
+    | error flt =>
+      cases flt <;> simp only [run_bind, hp, hcu, run_get, run_set, run_throw, run_modify, run_pure]
+
+theorem run_callResolved_builtin (F : Nat) (name : String) (args : List Expr) (s : St) :
+    (callResolved (F + 1) (.builtin name) args).run s =
+      guardedRun s.data.length
+        ((prepareArgs F none 0 args >>= fun _ => callUser F name args.length : M Unit).run s) := by
+  rw [callResolved]
+  unfold guardedRun
+  rcases hp : (prepareArgs F none 0 args).run s with ⟨rp, s1⟩
+  cases rp with
+  | error flt =>
+    cases flt <;> simp only [run_bind, hp, run_get, run_set, run_throw, run_modify, run_pure]
+  | ok u =>
+    rcases hcu : (callUser F name args.length).run s1 with ⟨rc, s2⟩
+    cases rc with
+    | ok u2 => simp only [run_bind, hp, hcu, run_get, run_set, run_throw, run_modify, run_pure]
+    | error flt =>
+      cases flt <;> simp only [run_bind, hp, hcu, run_get, run_set, run_throw, run_modify, run_pure]
+
+theorem run_callResolved_arr (F r : Nat) (args : List Expr) (s : St) :
+    (callResolved (F + 1) (.arr r) args).run s =
+      guardedRun s.data.length ((prepareArgs F none 0 args >>= fun _ => (err : M Unit) : M Unit).run s) := by
+  rw [callResolved]
+  unfold guardedRun
+  rcases hp : (prepareArgs F none 0 args).run s with ⟨rp, s1⟩
+  cases rp with
+  | error flt =>
+    cases flt <;> simp only [run_bind, hp, run_get, run_set, run_throw, run_modify, run_pure]
+  | ok u => simp only [run_bind, hp, run_get, run_set, run_throw, run_modify, run_pure, run_err]
+
+theorem run_callResolved_other (F : Nat) (fv : Val) (args : List Expr) (s : St) (h1 : ∀ id, fv ≠ .fn id)
+    (h2 : ∀ n, fv ≠ .builtin n) (h3 : ∀ r, fv ≠ .arr r) :
+    (callResolved (F + 1) fv args).run s =
+      if args.isEmpty then (.ok (), s.jmp (s.pc + 1) (some fv :: s.data)) else (.error .err, s) := by
+  rw [callResolved]
+  cases fv with
+  | fn id => exact absurd rfl (h1 id)
+  | builtin n => exact absurd rfl (h2 n)
+  | arr r => exact absurd rfl (h3 r)
+  | _ =>
+    simp only [run_bind, run_get]
+    split
+    · simp only [run_bind, run_pushData, run_incPc]; rfl
+    · simp only [run_err]
+
 end ZygoVerif.Sim
